@@ -211,6 +211,18 @@ def handle (st : DState) (line : String) : DState × List String :=
     | some c =>
       let (res, a') := Abs.step st.cfg st.tabs.oracle st.a c
       ({ st with a := a' }, [showResult st.cfg res])
+  | ["shard", d, w, x] =>
+    match d.toNat?, w.toNat?, decStr x with
+    | some d, some w, some x => (st, ["shard " ++ "/".intercalate ((shardPy d w x).map strOf)])
+    | _, _, _ => (st, ["bad-op"])
+  | ["clean", x] =>
+    match decStr x with
+    | some x => (st, [match cleanAlgorithm x with | .ok c => "ok " ++ strOf c | .error e => "err " ++ e.name])
+    | none => (st, ["bad-op"])
+  | ["isspace", n] =>
+    match n.toNat? with
+    | some n => (st, [if isSpace (Char.ofNat n) then "1" else "0"])
+    | none => (st, ["bad-op"])
   | ["sstate"] => (st, absLines st.a ++ ["."])
   | ["state"] => (st, stateLines st.cfg st.w.st ++ ["."])
   | ["log"] => (st, st.w.log.map (showEff st.cfg) ++ ["."])
